@@ -42,6 +42,7 @@ class SimulationAlgorithm3DBase
     long long Poisson(double lambda)
         {
         if(!(lambda > 0)) return 0; // std::poisson_distribution requires a strictly positive mean
+        if(!(lambda < 1e15)) return static_cast<long long>(lambda < 9e18 ? lambda : 9e18); // the draw never returns for a mean beyond the integer range; up there the distribution is narrower than the resolution of the state : its mean is used
         return std::poisson_distribution<long long>(lambda)(rng); // (the int variant never returns for a mean above 2^31)
         }
 
